@@ -102,14 +102,14 @@ package dns
 
 // hand-written len methods: what they count is at least what the generated pack writes - the header, the fixed
 // fields, NextDomain uncompressed (RFC 3845/4034: never compressed), the salt and hash octets, the type bit map
-//@ func (*NSEC).len [C08]
+//@ func (*NSEC).len [C08 C09]
 //@   callsite "domainNameLen" plain: arg0 == rr.NextDomain && arg1 == off + callres("(*RR_Header).len") && !arg3
 //@   exit sum: ret0 == callres("(*RR_Header).len") + callres("domainNameLen") + callres("typeBitMapLen")
 //@   callsite "typeBitMapLen" map: same(arg0, rr.TypeBitMap)
-//@ func (*NSEC3).len [C08]
+//@ func (*NSEC3).len [C08 C09]
 //@   exit enough: ret0 >= callres("(*RR_Header).len") + 5 + len(rr.Salt) / 2 + 1 + (len(rr.NextDomain) * 5) / 8 + callres("typeBitMapLen")
 //@   callsite "typeBitMapLen" map: same(arg0, rr.TypeBitMap)
-//@ func (*CSYNC).len [C08]
+//@ func (*CSYNC).len [C08 C09]
 //@   exit exact: ret0 == callres("(*RR_Header).len") + 6 + callres("typeBitMapLen")
 //@   callsite "typeBitMapLen" map: same(arg0, rr.TypeBitMap)
 
